@@ -16,7 +16,7 @@ RULE = ('(1) every opcode the library implements x all stacks of depth 0..arity+
         'IF/NOTIF/ELSE/ENDIF (depth<=3), pushes and opcodes, length<=30 (thorough<=80); (3) P2PK, P2PKH, bare and '
         'P2SH-flattened m-of-n spends with real reference-made signatures in valid and broken variants; (4) '
         'CLTV/CSV against an env grid. Non-trivial: (1) depth>=2 or a non-minimal/negative-zero item, (2) a '
-        'conditional and >=3 opcodes, (3)/(4) all; distinct by program + initial stack. [(1b) every opcode byte at top level / in a taken / in an untaken branch x 13 stacks; (1c) the four ordering-comparison methods called directly x all stacks of depth <= 3; grammar programs contain every other opcode byte as a rare atom] [a sub-range of a program may be wrapped into a nested command list]')
+        'conditional and >=3 opcodes, (3)/(4) all; distinct by program + initial stack. [(1b) every opcode byte at top level / in a taken / in an untaken branch x 13 stacks; (1c) the four ordering-comparison methods called directly x all stacks of depth <= 3; grammar programs contain every other opcode byte as a rare atom] [a sub-range of a program may be wrapped into a nested command list] [alphabet and pushes include multi-byte zeros and negative zeros; CSV grid with meaningless sequence bits]')
 ASSUMPTIONS = ['ref/interp.py implements consensus (no policy flags); opcodes for which Stack has no method may '
                'raise (reported as unimplemented)',
                'Script.evaluate flattens P2SH: OP_CHECKMULTISIG verifies and pushes env_data["redeemscript"]; bare '
